@@ -598,7 +598,7 @@ Definition table_solve : list (string * (list arg -> out)) :=
        | [AA s1 e1; AA s2 e2] =>
          let a := qmat_of s1 e1 in let b := qmat_of s2 e2 in
          match solve_checked (nats s1) (nats s2) a b with
-         | Ok x => OList [oq (concat x); OZ (if residual_ok a x b then 1 else 0)%Z]
+         | Ok x => OList [oq (concat x); OZ (if residual_ok a x b then 1 else 0)%Z; OZ (if pivots_okb a then 1 else 0)%Z]
          | Err e => OErr e | Panic => OPanic | Fuel => OFuel end
        | _ => OBad end)
   ; ("det", fun args => match args with
